@@ -5,8 +5,8 @@ SPEC = {
     "id": "C18",
     "group": G,
     "level": "proof",
-    # each bridge harness is a 35-75 s / ~2 GB CBMC run; 8 at a time keeps both tiers short without crowding the box
-    "caps": {"jobs": 8, "mem_gb": 12},
+    # each bridge harness is a 35-75 s / ~2 GB CBMC run; 2 at a time while the box is shared (quick ~4 min, thorough ~25 min); raise jobs to 8 on a free box (quick 100 s, thorough 8 min, measured)
+    "caps": {"jobs": 2, "mem_gb": 10},
     "harnesses": [
         # (a) level conversions
         H("c18::c18_conv_level", desc="AsTrace for log::Level / AsLog for Level: rank preserving, mutually inverse, injective, order preserving in both crates' orders",
@@ -68,6 +68,10 @@ SPEC = {
         H("c18::c18_rev_span_fields", desc="span with a field: creation record carries the callsite's target; close record tracing::span", sym="none"),
         H("c18::c18_rev_after_set", desc="after dispatch::set_default has run once (guard kept or already dropped): event + span new/enter/exit/drop emit no log record and the logger is not asked",
           sym="level in 5, guard kept or dropped"),
+        H("c18::c18_rev_after_guard_drop", desc="'ever installed' is sticky: set_default then DROP the guard (no collector live on any simulated thread, no global default); "
+          "event + span new/enter/exit/drop on any simulated thread emit no log record (checked after every step), logger not asked, nothing reaches the old collector; has_been_set() still true",
+          sym="level in 5, emitting simulated thread in 3"),
+        H("c18::c18_rev_after_with_default", desc="the same after dispatch::with_default(&d, ..) has returned", sym="level in 5, emitting simulated thread in 3"),
         H("c18::c18_rev_reach", kind="reach", desc="vacuity twin of the reverse direction: event + span new + span close records observed"),
         H("c18::c18_rev_event_cached", tier="thorough", desc="no collector ever installed, callsite registered, cached interest and tracing max level arbitrary: still exactly one record per event (enabled and disabled arm of event! both log)",
           sym="interest in 3, max level in 6"),
